@@ -92,7 +92,12 @@ fn main() {
         "C16" => c16::run(&mut ctx),
         "C17" => c17::run(&mut ctx),
         "C18" => c18::run(&mut ctx),
-        "C19" => { c19::run(&mut ctx); ck::wide_frontier(&mut ctx, "c19"); explorer::run(&mut ctx); }
+        "C19" => {
+            c19::run(&mut ctx);
+            ck::wide_frontier(&mut ctx, "c19");
+            explorer::run(&mut ctx);
+            if std::env::var("VERIF_TIER").map(|t| t == "thorough").unwrap_or(false) { ck::c02_c03_c11(&mut ctx, "c19"); }
+        }
         "C20" => c20::run(&mut ctx),
         other => {
             eprintln!("no oracle for {}", other);
